@@ -200,6 +200,9 @@ func Run(c *vl.Ctx) {
 		for _, st := range starts {
 			for _, h := range histories(st, depth) {
 				for _, form := range idxForms {
+					if quick && (form == "const" || form == "mutated-let") {
+						continue // quick: literal, let, func-result; thorough: all five
+					}
 					hasIdx := false
 					for _, o := range h {
 						if o.kind == "read" || o.kind == "set" || o.kind == "callee-read" {
@@ -229,6 +232,9 @@ func Run(c *vl.Ctx) {
 	for si, s := range strs {
 		for i := int64(-len(s) - 1); i <= int64(len(s)); i++ {
 			for _, form := range idxForms {
+				if quick && (form == "const" || form == "mutated-let") {
+					continue
+				}
 				id := fmt.Sprintf("C08/str/%d/%s/%d", si, form, i)
 				if f := os.Getenv("VERIF_FILTER"); f != "" && !strings.Contains(id, f) {
 					continue
